@@ -677,8 +677,44 @@ class Engine:
         inv = self.reg.find_loop(self.cur_target, ordinal)
         if inv is not None:
             return self.exec_for_invariant(node, it, inv, st, ordinal)
+        elems = self._small_concrete(it, st)
+        if elems is not None:
+            return self.exec_for_unrolled(node, elems, st)
         # comprehension rule: body must be stateless (no heap writes, no loop-carried locals).
         return self.exec_for_comprehension(node, it, st, ordinal)
+
+    def _small_concrete(self, it, st):
+        """Elements of an iterable whose length is a small known constant (then the loop is unrolled exactly)."""
+        if it.k == "tuple" and len(it.x) <= 4:
+            return list(it.x)
+        if it.k == "range":
+            a, b, s_ = it.x
+            if s_.k == "int" and z3.is_int_value(s_.t) and s_.t.as_long() == 1:
+                d = z3.simplify(self.as_int(b, st) - self.as_int(a, st))
+                if z3.is_int_value(d) and 0 <= d.as_long() <= 4:
+                    return [sv_int(self.as_int(a, st) + i) for i in range(d.as_long())]
+        if it.k == "list":
+            n = z3.simplify(it.x)
+            if z3.is_int_value(n) and 0 <= n.as_long() <= 4:
+                return [self.schema.refine(SV("val", z3.Select(it.t, i), cls=it.cls)) for i in range(n.as_long())]
+        return None
+
+    def exec_for_unrolled(self, node, elems, st):
+        outs = []
+        live = [st]
+        for e in elems:
+            nxt = []
+            for s in live:
+                self.assign(node.target, e, s)
+                for (s2, ctrl) in self.exec_stmts(node.body, s):
+                    if ctrl is None or ctrl[0] == "continue":
+                        nxt.append(s2)
+                    elif ctrl[0] == "break":
+                        outs.append((s2, None))
+                    else:
+                        outs.append((s2, ctrl))
+            live = nxt
+        return [(s, None) for s in live] + outs
 
     def bags_of(self, it, st):
         """Describe an iterable as a list of Bags."""
@@ -1219,6 +1255,8 @@ class Engine:
             return SV("boundbuiltin", x=(obj, attr))
         if k == "val" and attr == "value" and obj.x == "enum":
             return sv_int(enum_(obj.t))
+        if k in ("int", "bool") and attr == "__index__":
+            return SV("boundbuiltin", x=(obj, "__index__"))
         if k == "builtin" or k == "py":
             return SV("builtin", x=(obj.x if isinstance(obj.x, str) else repr(obj.x)) + "." + attr)
         sp = self.schema.get_attr_special(self, obj, attr, st)
